@@ -521,6 +521,7 @@ def seq_of(ex, v):
     if isinstance(v, SeqIter):
         r = v.rest(); v.i = len(v.items); return r
     if isinstance(v, RangeIter): return v.drain(ex)
+    if isinstance(v, Struct) and simple_name(v.ty) == 'Range': return RangeIter(v).drain(ex)
     if isinstance(v, VecV): return list(v.items)
     if isinstance(v, SliceV): return list(v.elems())
     if isinstance(v, Enum) and simple_name(v.ty) == 'Option': return list(v.f)
@@ -1041,3 +1042,9 @@ def bigint_is_zero(ex, args):
 
 @model(r'<&?bool as (?:std::ops::)?Not>::not')
 def bool_not_model(ex, args): return simp(b_not(deref(args[0])))
+
+
+@model(r'(?:std::vec::|alloc::vec::)?from_elem::<.*>')
+def vec_from_elem(ex, args):
+    n = ex.concretize(args[1], 0, 1 << 20)
+    return VecV([clone_val(args[0]) for _ in range(n)])
